@@ -44,12 +44,6 @@ Definition exec_sys (dp : disk * (N * N)) (s : sys) : disk * (N * N) :=
 Definition exec_all (d : disk) (l : list sys) : disk := fst (fold_left exec_sys l (d, (0, 0))).
 
 (* ---- index records: #pragma pack(1) struct IPrec { uint32_t _seq; off_t _offset; int32_t _size; } ---- *)
-Fixpoint le_dec (l : list byte) : N :=
-  match l with
-  | [] => 0
-  | b :: r => b + 256 * le_dec r
-  end.
-
 Notation prec := (N * N)%type (only parsing).        (* (_offset, _size) *)
 Definition enc_iprec (seq : N) (p : prec) : list byte :=
   le_enc 4 seq ++ le_enc 8 (fst p) ++ le_enc 4 (snd p).
